@@ -102,6 +102,14 @@ def builder_cases(draw, max_leaves=10, max_width=4):
 
 
 @st.composite
+def pickle_cases(draw, max_leaves=8):
+    """documents pickled and loaded through the pickle file type (fickling AST -> Module / Assignment / ... data-class nodes)"""
+    a, b = draw(doc_pairs(max_leaves, 3))
+    ds, le = draw(options)
+    return {'family': 'pickle', 'a': a, 'b': b, 'ds': ds, 'le': le}
+
+
+@st.composite
 def pyobj_cases(draw, max_leaves=8):
     """Custom Python objects (every mapping becomes an object with attributes) through pydiff.build_tree."""
     a, b = draw(doc_pairs(max_leaves, 3))
@@ -448,6 +456,15 @@ def build(case, which, opts=None):
     if fam == 'pyobj':
         from graphtage import pydiff
         return pydiff.build_tree(to_pyobj(doc), opts)
+    if fam == 'pickle':
+        import pickle
+        fd, path = tempfile.mkstemp(suffix='.pkl', dir=scratch_dir())
+        try:
+            with os.fdopen(fd, 'wb') as f:
+                f.write(pickle.dumps(doc))
+            return graphtage.FILETYPES_BY_TYPENAME['pickle'].build_tree(path, opts)
+        finally:
+            os.unlink(path)
     if fam == 'multiset':
         return build_multiset(doc, opts)
     if fam == 'xml':
